@@ -1,0 +1,93 @@
+//go:build verif
+
+package zygo
+
+import (
+	"fmt"
+	"reflect"
+	"runtime"
+	"sort"
+	"strings"
+)
+
+// Read-only accessors for the C08 verification harness (build tag verif).
+
+// VerifBinding describes one name a script can use: where it is bound
+// (global scope, builtins table, macro table), what kind of object it is, and,
+// for objects backed by a Go function, the identifier of the top-level Go
+// function the function value was created in (closures report their
+// enclosing declaration, e.g. CompareFunction for CompareFunction("<")).
+type VerifBinding struct {
+	Table  string // "global", "builtin", "macro"
+	Name   string
+	Kind   string // "function", "builder", "scriptfn", "type", "value:<GoType>"
+	GoFunc string
+}
+
+func verifGoFuncName(f ZlispUserFunction) string {
+	if f == nil {
+		return ""
+	}
+	fn := runtime.FuncForPC(reflect.ValueOf(f).Pointer())
+	if fn == nil {
+		return "?"
+	}
+	s := fn.Name()
+	if i := strings.LastIndex(s, "/"); i >= 0 {
+		s = s[i+1:]
+	}
+	// s = "zygo.CompareFunction.func1" or "zygo.ReadFunction"
+	parts := strings.Split(s, ".")
+	if len(parts) >= 2 {
+		return parts[1]
+	}
+	return s
+}
+
+func verifDescribe(table, name string, obj Sexp) VerifBinding {
+	b := VerifBinding{Table: table, Name: name}
+	switch t := obj.(type) {
+	case *SexpFunction:
+		switch {
+		case t.user && t.isBuilder:
+			b.Kind = "builder"
+			b.GoFunc = verifGoFuncName(t.userfun)
+		case t.user:
+			b.Kind = "function"
+			b.GoFunc = verifGoFuncName(t.userfun)
+		default:
+			b.Kind = "scriptfn"
+		}
+	case *RegisteredType:
+		b.Kind = "type"
+	default:
+		b.Kind = fmt.Sprintf("value:%T", obj)
+	}
+	return b
+}
+
+// VerifBindings lists every entry of the global scope, the builtins table and
+// the macro table, sorted by (table, name).
+func (env *Zlisp) VerifBindings() []VerifBinding {
+	var out []VerifBinding
+	if env.linearstack.Size() > 0 {
+		if scope, ok := env.linearstack.elements[0].(*Scope); ok {
+			for num, obj := range scope.Map {
+				out = append(out, verifDescribe("global", env.revsymtable[num], obj))
+			}
+		}
+	}
+	for num, f := range env.builtins {
+		out = append(out, verifDescribe("builtin", env.revsymtable[num], f))
+	}
+	for num, f := range env.macros {
+		out = append(out, verifDescribe("macro", env.revsymtable[num], f))
+	}
+	sort.Slice(out, func(i, j int) bool {
+		if out[i].Table != out[j].Table {
+			return out[i].Table < out[j].Table
+		}
+		return out[i].Name < out[j].Name
+	})
+	return out
+}
